@@ -1,6 +1,94 @@
-(* Properties/C01.v — placeholder until the proofs land (statements in Proofs/WireProofs.v). *)
+(* Properties/C01.v — wire encoder/decoder round-trip for every IMAP data value. *)
 From GoImap.Base Require Import Bytes.
-From GoImap.Model Require Import Wire.
-Theorem C01_placeholder : dec_quoted (enc_quoted (s2b "a""b\c") ++ s2b " x") = DOk (s2b "a""b\c") (s2b " x").
-Proof. vm_compute. reflexivity. Qed.
-Print Assumptions C01_placeholder.
+From GoImap.Model Require Import NumSet MatchList Utf7 Wire.
+From GoImap.Proofs Require Import NumSetSpec Utf7Spec WireSpec WireProofs.
+Open Scope N_scope.
+
+Theorem C01_quoted_roundtrip : forall s rest, dec_quoted (enc_quoted s ++ rest) = DOk s rest.
+Proof. exact quoted_roundtrip. Qed.
+Print Assumptions C01_quoted_roundtrip.
+
+Theorem C01_string_roundtrip : forall cfg s segs rest, fits_int64 s ->
+  enc_string cfg s = Some segs ->
+  dec_string (peer_server cfg) (flatten segs ++ rest) = DOk s rest /\
+  dec_astring (peer_server cfg) (flatten segs ++ rest) = DOk s rest /\
+  dec_nstring (peer_server cfg) (flatten segs ++ rest) = DOk s rest.
+Proof. exact string_roundtrip. Qed.
+Print Assumptions C01_string_roundtrip.
+
+Theorem C01_string_quoted_only_if_valid : forall cfg s, valid_quoted cfg s = true ->
+  enc_string cfg s = Some [SBytes (enc_quoted s)] /\
+  forallb (fun c => negb ((b2n c =? 0) || (b2n c =? 13) || (b2n c =? 10))) (enc_quoted s) = true /\
+  (quoted_utf8 cfg = false -> forallb (fun c => b2n c <=? 127) (enc_quoted s) = true).
+Proof. exact string_quoted_only_if_valid. Qed.
+Print Assumptions C01_string_quoted_only_if_valid.
+
+Theorem C01_mailbox_roundtrip : forall cfg runes segs rest, forallb scalar runes = true ->
+  fits_int64 (utf7_encode (utf8_of runes)) -> delimited rest ->
+  enc_mailbox cfg (utf8_of runes) = Some segs ->
+  dec_mailbox (peer_server cfg) (flatten segs ++ rest) =
+    DOk (if equal_fold_ascii (utf8_of runes) INBOX then INBOX else utf8_of runes) rest.
+Proof. exact mailbox_roundtrip. Qed.
+Print Assumptions C01_mailbox_roundtrip.
+
+Theorem C01_numset_roundtrip : forall s segs rest, canon s = true -> delimited rest ->
+  enc_numset s = Some segs -> dec_numset (flatten segs ++ rest) = DOk (Some s) rest.
+Proof. exact numset_roundtrip. Qed.
+Print Assumptions C01_numset_roundtrip.
+
+Theorem C01_numset_empty_refused : enc_numset [] = None.
+Proof. exact numset_empty_refused. Qed.
+Print Assumptions C01_numset_empty_refused.
+
+Theorem C01_flag_roundtrip : forall f segs rest, delimited rest -> enc_flag f = Some segs ->
+  dec_flag (flatten segs ++ rest) = DOk (canonical_flag f) rest.
+Proof. exact flag_roundtrip. Qed.
+Print Assumptions C01_flag_roundtrip.
+
+Theorem C01_attr_roundtrip : forall a segs rest, delimited rest -> enc_mailbox_attr a = Some segs ->
+  dec_mailbox_attr (flatten segs ++ rest) = DOk (canonical_attr (canonical_flag a)) rest.
+Proof. exact attr_roundtrip. Qed.
+Print Assumptions C01_attr_roundtrip.
+
+Theorem C01_canonical_flag_spec : forall f, seven_bit f ->
+  (canonical_flag f = f \/ (In (canonical_flag f) known_flags /\ ascii_lower (canonical_flag f) = ascii_lower f)).
+Proof. exact canonical_flag_spec. Qed.
+Print Assumptions C01_canonical_flag_spec.
+
+Theorem C01_flag_refused : forall f, enc_flag f = None <-> (f <> s2b "\*" /\ is_valid_flag f = false).
+Proof. exact flag_refused. Qed.
+Print Assumptions C01_flag_refused.
+
+Theorem C01_number_roundtrip : forall n rest, n < 4294967296 ->
+  (match rest with [] => False | c :: _ => is_digit c = false end) ->
+  dec_number (enc_number n ++ rest) = DOk n rest.
+Proof. exact number_roundtrip. Qed.
+Print Assumptions C01_number_roundtrip.
+
+Theorem C01_number64_roundtrip : forall z segs rest, (z < 9223372036854775808)%Z ->
+  (match rest with [] => False | c :: _ => is_digit c = false end) ->
+  enc_number64 z = Some segs -> dec_number64 (flatten segs ++ rest) = DOk (Z.to_N z) rest /\ (0 <= z)%Z.
+Proof. exact number64_roundtrip. Qed.
+Print Assumptions C01_number64_roundtrip.
+
+Theorem C01_value_discard : forall cfg v segs rest fuel, wf_wval v -> (wdepth v < MAX_DEPTH)%nat ->
+  delimited rest -> enc_val cfg v = Some segs ->
+  (length (flatten segs ++ rest) < fuel)%nat ->
+  discard_value fuel (peer_server cfg) 0 (flatten segs ++ rest) = DOk tt rest.
+Proof. exact value_discard. Qed.
+Print Assumptions C01_value_discard.
+
+Theorem C01_value_too_deep : forall cfg v segs rest fuel, wf_wval v -> (MAX_DEPTH <= wdepth v)%nat ->
+  enc_val cfg v = Some segs ->
+  discard_value fuel (peer_server cfg) 0 (flatten segs ++ rest) = DErr.
+Proof. exact value_too_deep. Qed.
+Print Assumptions C01_value_too_deep.
+
+(* non-vacuity *)
+Example C01_nonvacuous :
+  let cfg := mkCfg false true false true (Some true) in
+  option_map flatten (enc_string cfg (hx "610d0a62")) = Some (s2b "{4+}" ++ hx "0d0a610d0a62") /\
+  dec_astring true (s2b "{4+}" ++ hx "0d0a610d0a62" ++ s2b " x") = DOk (hx "610d0a62") (s2b " x") /\
+  option_map flatten (enc_mailbox cfg (s2b "inBox")) = Some (s2b "INBOX") /\
+  enc_flag (s2b "\") = None /\ enc_number64 (-1)%Z = None.
+Proof. vm_compute. repeat split. Qed.
